@@ -136,6 +136,23 @@ func nestedQueues(rt *rapid.T) []queueSpec {
 	return out
 }
 
+func drawRouters(rt *rapid.T) []queueSpec {
+	prefixes := []string{"", "a", "a/b", "a/b/c", "x"}
+	n := rapid.IntRange(0, 4).Draw(rt, "nRouters")
+	seen := map[string]bool{}
+	var out []queueSpec
+	for i := 0; i < n; i++ {
+		r := queueSpec{Prefix: rapid.SampledFrom(prefixes).Draw(rt, "routerPrefix"), Platform: rapid.IntRange(0, 2).Draw(rt, "routerPlatform")}
+		k := r.Prefix + "|" + platformString(r.Platform)
+		if seen[k] {
+			continue
+		}
+		seen[k] = true
+		out = append(out, r)
+	}
+	return out
+}
+
 func TestC05RoutingAndDrains(t *testing.T) {
 	ops := []string{
 		"execute", "execute", "execute", "execute",
@@ -146,7 +163,7 @@ func TestC05RoutingAndDrains(t *testing.T) {
 	}
 	p := &profile{
 		name: "C05", ops: ops, minSteps: 5, maxSteps: 60, instances: instanceNames,
-		queues: nestedQueues, workers: [2]int{2, 6}, actions: [2]int{2, 6}, invDepth: [2]int{0, 1},
+		queues: nestedQueues, routers: drawRouters, workers: [2]int{2, 6}, actions: [2]int{2, 6}, invDepth: [2]int{0, 1},
 		syncKinds: allSyncKinds, finalDrain: true,
 		nontrivial: func(l labels) bool {
 			return l["assignment"] > 0 && (l["drain_added"] > 0 || l["terminate"] > 0 || l["final_queue_removed"] > 0 || l["rejected_Unavailable"]+l["rejected_FailedPrecondition"] > 0)
